@@ -531,7 +531,8 @@ def right(text, num_chars=1):
 
     if num_chars < 0:
         return VALUE_ERROR
-    elif num_chars == 0:
+    elif int(num_chars) == 0:
+        # also a fraction below 1: [-0:] would be the whole text
         return ''
     else:
         return str(text)[-int(num_chars):]
